@@ -399,7 +399,7 @@ def subscript(I, obj, idx, node):
                                    note='index %d out of range (height %d)' % (cidx, len(obj.items)))
             if cidx < 0 and -cidx <= len(obj.items):
                 return obj.items[cidx]
-            if 'nonempty' not in getattr(obj, 'facts', ()):
+            if 'nonempty' not in getattr(obj, 'facts', ()) or cidx not in (0, -1):
                 I.may_raise(node, ['IndexError'], 'index into list of unknown length', (obj,))
             return derive(obj.elem, 'elem')
         I.may_raise(node, ['IndexError', 'TypeError'], 'index with unknown value', (obj, idx))
@@ -458,6 +458,10 @@ def slice_value(I, obj, sl, node):
         return AList([], elem=obj.elem if obj.elem is not None else (obj.items[0] if obj.items else Unk('e')))
     if isinstance(obj, Unk):
         u = Unk('%s[:]' % obj.name, kinds=obj.kinds, taint=tj(obj, lo, hi), src=('slice', obj, lo, hi))
+        if hi is None and step is None:
+            for f_ in obj.facts:
+                if isinstance(f_, tuple) and f_[0] in ('encoded-by', 'encoded-in', 'encoded-by-param'):
+                    u.facts.add(f_)
         if hasattr(obj, 'k1_record'):
             u.k1_record = obj.k1_record
         return u
@@ -546,7 +550,10 @@ def iterate(I, it, node):
     if isinstance(it, AList):
         if not it.unknown:
             return list(it.items)
-        n = I.unknown_iters[I.choose(len(I.unknown_iters), 'iters')]
+        opts = I.unknown_iters
+        if 'nonempty' in getattr(it, 'facts', ()) and not it.items:
+            opts = tuple(x for x in opts if x >= 1) or (1,)
+        n = opts[I.choose(len(opts), 'iters')]
         I.emit('loop', node, {'iters': n, 'of': it})
         return list(it.items) + [derive_fresh(it.elem, 'elem%d' % i) for i in range(n)]
     if isinstance(it, ADict):
@@ -634,8 +641,13 @@ def comprehension(I, e, kind):
             d.keymap = getattr(it[2], 'name', None)
         return d
     l = AList(out)
-    if unknown_len and not out:
-        pass
+    if isinstance(it, AList) and it.unknown and not g.ifs:
+        # same (unknown) length as the source list
+        l.unknown = True
+        l.elem = out[-1] if out else Unk('elem', taint=tj(it))
+        l.items = []
+        if 'nonempty' in getattr(it, 'facts', ()):
+            l.facts = {'nonempty'}
     return l
 
 
